@@ -110,6 +110,15 @@ def proof_step(pid, cfg, ev):
             consts = {}
         ev["consts"] = {k: v["status"] for k, v in consts.items() if v["status"] != "extracted"} or "all 21 constants re-derived from /repo/src, unchanged"
         ev["consts_changed"] = [k for k, v in consts.items() if v["status"] == "extracted-changed"]
+        # layouts of the fixed-layout structures, translated from the serialize / parse bodies
+        rc, out, _ = run([sys.executable, os.path.join(VERIF, "tools", "extract_layouts.py")])
+        try:
+            lay = json.loads(out[out.index("{"):])
+        except Exception:
+            lay = {}
+        bad = {k: v["status"] for k, v in lay.items() if isinstance(v, dict) and v.get("status") != "extracted"}
+        ev["layouts"] = bad or f"all {len([k for k in lay if not k.startswith('_')])} structure layouts (writer and reader) translated from /repo/src, unchanged"
+        ev["layouts_changed"] = [k for k, v in lay.items() if isinstance(v, dict) and v.get("status") == "extracted-changed"]
         mod = cfg["theorems"]
         targets = [mod, "jbkmodel"]
         rc, out, dt = run(["lake", "build"] + targets, cwd=LEAN, timeout=3000)
